@@ -117,6 +117,9 @@ func init() {
 		dn := parse("pkg/lifecycle/stream/destination.go")
 		emit("destinationRunConds", "if-conditions of DestinationNode.Run, in source order",
 			streamAllIfConds(findFunc(dn, "DestinationNode", "Run")))
+		emit("destinationRunCalls", "connector / tracker calls of DestinationNode.Run, in source order (the deferred drain first)",
+			streamCallsIn(findFunc(dn, "DestinationNode", "Run"), []string{"Destination.Open", "Destination.Stop",
+				"openMsgTracker.Wait", "Destination.Teardown", "Destination.Write", "openMsgTracker.Add"}))
 	})
 }
 
